@@ -120,6 +120,42 @@ func c17Gen(rng *verifsim.RNG, idx int, tier string) *Plan {
 				p.Horizon = t0 + d + nsSec
 			}
 		}
+	case 2:
+		// two debug API requests (or an API request and a scrape) in flight at
+		// once: the first is stuck in the forwarding read of the last interface
+		// while the second runs to completion; nothing in the world changes
+		// meanwhile, so both must mirror the same state
+		p.Class = "overlapping-requests"
+		t0 := int64(rng.Dur(time.Second, horizon/2)) + 333
+		d := int64(rng.Dur(200*time.Millisecond, 3*time.Second))
+		var keep []Action
+		for _, a := range p.Actions {
+			if a.At >= t0-nsMs && a.At <= t0+d+nsMs && a.Kind != "rs" {
+				continue
+			}
+			keep = append(keep, a)
+		}
+		p.Actions = keep
+		last := n.Ifaces[nif-1].Name
+		p.Faults = append(p.Faults, Fault{Seam: "fwd", If: last, From: t0, Count: 1, Hold: "ho", Mode: "sampled"})
+		second := "/_/api/interfaces"
+		if n.Config.Debug.Prometheus && n.Metrics != "mem" && rng.Bool(0.3) {
+			second = "/metrics"
+		}
+		p.Actions = append(p.Actions,
+			Action{At: t0, Kind: "http", Path: "/_/api/interfaces"},
+			Action{At: t0 + d/2, Kind: "http", Path: second},
+			Action{At: t0 + d, Kind: "release", Hold: "ho"})
+		if rng.Bool(0.5) {
+			// ... and the second one is stuck in its first read when the first
+			// one goes on
+			p.Faults = append(p.Faults, Fault{Seam: "fwd", If: n.Ifaces[0].Name, From: t0 + d/2, Count: 1, Hold: "ho2", Mode: "sampled"})
+			p.Actions = append(p.Actions, Action{At: t0 + d + 100*nsMs, Kind: "release", Hold: "ho2"})
+			d += 100 * nsMs
+		}
+		if p.Horizon < t0+d+nsSec {
+			p.Horizon = t0 + d + nsSec
+		}
 	case 1:
 		// failing state reads (whoever makes the next one)
 		p.Class = "state-faults"
@@ -354,9 +390,28 @@ func c17Oracle(info *runInfo, res *verifsim.Result) {
 		}
 
 		if overlaps(r) {
-			// two requests in flight at once (only minimised plans do that): their
-			// seam calls cannot be told apart, so only crash/block/routing are judged
-			continue
+			// two requests in flight at once: their seam calls cannot be told
+			// apart, so only crash/block/routing are judged - unless nothing in
+			// the world changed while this one was in progress: then every read
+			// made meanwhile, by whomever, saw the same world
+			static := true
+			for i := range info.ev {
+				x := &info.ev[i]
+				if x.Seq <= r.enter.Seq || x.Seq >= r.exit.Seq {
+					continue
+				}
+				switch x.K {
+				case "act.fwd", "act.addrs", "act.routes", "act.autoconf", "act.mac", "act.reindex", "act.link", "act.ifup", "act.ifdown", "act.watchend", "act.signal", "dial.enter", "dial.exit":
+					static = false
+				}
+				if x.Err != "" && (strings.HasSuffix(x.K, ".exit")) && !advG[x.G] && x.K != "http.exit" {
+					static = false
+				}
+			}
+			if !static {
+				continue
+			}
+			res.Probe("overlapping_requests_judged")
 		}
 		// mirror: per advertising interface
 		initialised := func(ifn string) *generation {
